@@ -27,6 +27,10 @@ def mutators(db):
     direct, calls = set(), {}
     for name, fi in methods.items():
         calls[name] = set()
+        # locals that are plain aliases of something reached through self (data = self.data): storing into / updating them in place
+        # writes the object
+        alias = {n.targets[0].id for n in walk_no_nested(fi.node) if isinstance(n, ast.Assign) and len(n.targets) == 1 and isinstance(n.targets[0], ast.Name)
+                 and isinstance(n.value, ast.Attribute) and isinstance(n.value.value, ast.Name) and n.value.value.id == 'self'}
         for n in walk_no_nested(fi.node):
             if isinstance(n, (ast.Assign, ast.AugAssign)):
                 tgts = n.targets if isinstance(n, ast.Assign) else [n.target]
@@ -34,6 +38,17 @@ def mutators(db):
                     for x in ast.walk(t):
                         if isinstance(x, ast.Attribute) and isinstance(x.value, ast.Name) and x.value.id == 'self':
                             direct.add(name)
+                    if isinstance(t, ast.Subscript) and isinstance(t.value, ast.Name) and t.value.id in alias:
+                        direct.add(name)
+                    if isinstance(n, ast.AugAssign) and isinstance(t, ast.Name) and t.id in alias:
+                        direct.add(name)
+            if isinstance(n, ast.Call) and ast.unparse(n.func).rsplit('.', 1)[-1] in ('putmask', 'place', 'copyto', 'put') and n.args:
+                a0 = n.args[0]
+                if (isinstance(a0, ast.Name) and a0.id in alias) or (isinstance(a0, ast.Attribute) and isinstance(a0.value, ast.Name) and a0.value.id == 'self'):
+                    direct.add(name)
+            if isinstance(n, ast.Call) and any(isinstance(k.value, ast.Name) and k.value.id in alias or (isinstance(k.value, ast.Attribute) and isinstance(k.value.value, ast.Name) and k.value.value.id == 'self')
+                                               for k in n.keywords if k.arg == 'out'):
+                direct.add(name)
             if isinstance(n, ast.Call) and isinstance(n.func, ast.Attribute) and isinstance(n.func.value, ast.Name) and n.func.value.id == 'self' and n.func.attr in methods:
                 calls[name].add(n.func.attr)
             if isinstance(n, ast.Call) and isinstance(n.func, ast.Name) and n.func.id == 'setattr' and n.args and isinstance(n.args[0], ast.Name) and n.args[0].id == 'self':
@@ -486,6 +501,8 @@ def fit_rules(run, db):
                 return solve(columns(args[0]), args[1])
             if fi.name == 'cart_to_polar':
                 return _Tup([dom.sym('RR'), dom.sym('TT')])
+            if fi.module.name == 'prysm.util' and fi.name in ('mean', 'rms', 'pv', 'std', 'Sa') and len(args) == 1 and dom.rat(args[0]) is not None:
+                return dom.func_atom(fi.name, list(args))        # a statistic of the samples: one number, opaque
             return opr(fi, args, kwargs, node) if opr else None
         dom.call_ext, dom.method, dom.subscript, dom.getattr, dom.call_prysm = call_ext, method, subscript, getattr_, call_prysm
         return it, dom, solves
